@@ -15,6 +15,13 @@ CLAIMED = {
              "differential correspondence through the extracted model on random nests and real environment states.",
         ref="DESIGN.md §5 C19", tech="Coq proof (induction over leaf lists) + extracted-model correspondence"),
 }
+CLAIMED["C16"] = dict(
+    text="Theorems over arbitrary (nested) specs, shapes, dtypes, scalar/per-element broadcast bounds: generate_value is valid; "
+         "validate accepts exactly shape+dtype+inclusive IEEE bounds; == is reflexive/symmetric/transitive per kind and discriminates "
+         "shape, dtype, bounds, num_values, name; replace changes only the named attribute; pickle round trip; valid => member of the "
+         "converted gym space / dm_env spec; gym samples of the spec's dtype are valid. Model Base/Spec.v mirrors specs.py as written "
+         "and is tied by correspondence on random specs x boundary values x every method and on every environment's real specs.",
+    ref="DESIGN.md §5 C16", tech="Coq proof (induction on nested spec trees) + extracted-model correspondence")
 PENDING_REASON = "check under construction in this round (machinery for it is not committed yet)"
 
 
